@@ -630,6 +630,48 @@ func c01Cross(chk *fw.Check) int {
 				})
 			}
 		}
+		// (10) a configured list stays in force however many distribution points the validator comes to know: 140 other
+		// clients, each naming a distribution point of its own, are seen after the configured list was loaded
+		seqWorld(func() {
+			net := world.NewNet()
+			dir, files := FreshDir("c01m"), FreshDir("c01mf")
+			defer os.RemoveAll(dir)
+			defer os.RemoveAll(files)
+			file := filepath.Join(files, "configured.crl")
+			os.WriteFile(file, world.SimpleCRL(p.CA, 1, 650).DER(), 0644)
+			storage := "memory"
+			if disk {
+				storage = "disk"
+			}
+			cfg := &config.CRLConfig{WorkDir: dir, StorageType: storage, UpdateInterval: "10m", CRLFiles: []string{file},
+				TrustedSignatureCertsFiles: []string{WritePEM(files, "ca.pem", p.CA.Cert)}}
+			w := NewTW(TWOpt{Mode: "crl_only", Net: net, CRL: cfg})
+			if err := w.Provision(); err != nil {
+				chk.Violation("C01|premise|provision-failed", "many-distribution-points case: "+err.Error(), nil)
+				return
+			}
+			vsched.Drain()
+			x := world.Issue(p.CA, world.CertOpt{CN: "c01 m listed", Serial: big.NewInt(650), KeyKind: "ec", KeyIdx: 5})
+			if v := w.Handshake(world.Chain(x, p.CA, p.Root)); !v.Rejected() {
+				chk.Violation("C01|premise|first-load", "certificate listed in the configured list accepted right after Provision: "+v.String(), nil)
+				return
+			}
+			other := world.SimpleCRL(p.CA, 1, 699).DER()
+			for i := 0; i < 140; i++ {
+				u := fmt.Sprintf("http://crl.test/partition-%d.crl", i)
+				net.Serve(u, "other", other)
+				l := world.Issue(p.CA, world.CertOpt{CN: "c01 m other", Serial: big.NewInt(int64(7000 + i)), KeyKind: "ec", KeyIdx: 5, CDP: []string{u}})
+				w.Handshake(world.Chain(l, p.CA, p.Root))
+				vsched.Drain()
+			}
+			if v := w.Handshake(world.Chain(x, p.CA, p.Root)); !v.Rejected() {
+				chk.Violation("C01|listed-accepted|history=140-distribution-points-seen-after-the-configured-list|"+be(disk),
+					fmt.Sprintf("a certificate listed in the configured crl_file is accepted after 140 clients with distribution points of their own were seen: %s", v), nil)
+			}
+			n++
+			w.Cleanup()
+			vsched.Drain()
+		})
 	}
 	return n
 }
